@@ -4,6 +4,7 @@ import LocustModel.Lemmas.C03Order
 import LocustModel.Lemmas.C03Cmp
 import LocustModel.Lemmas.C03Where
 import LocustModel.Lemmas.C03Example
+import LocustModel.Gen.Registry
 /-
   C03 — WHERE keeps exactly the rows for which the predicate is true.  (property theorems)
 
@@ -255,5 +256,53 @@ theorem C03_where_refuted : ¬ C03_where_statement := by
     simpa [Ex.rows] using this.symm
   rw [this] at hl
   simp at hl
+
+/-! ### Translation tie: the hand-written registry equals the table extracted from query_plan.rs on this run -/
+
+namespace RegTie
+open LM.Gen.Registry (Entry Factory Func entries)
+
+def funcOf : CmpOp → Func
+  | .lt => .lT | .le => .lTE | .gt => .gT | .ge => .gTE | .eq => .equals | .ne => .notEquals
+
+def btOf : LM.Gen.Registry.BT → Option Filter.BT
+  | .integer => some .integer | .float => some .float | .string => some .string | .null => some .null
+  | .boolean => some .boolean | .other => none
+
+/-- Name of the executor operator and the source text of the factory bodies the model's `lower` / `castOperands` assume. -/
+def opName : XOp → String
+  | .lt => "less_than" | .le => "less_than_equals" | .eq => "equals" | .ne => "not_equals"
+
+def callText (op : CmpOp) : String :=
+  if (lower op).2 then s!"qp.{opName (lower op).1}(rhs, lhs)" else s!"qp.{opName (lower op).1}(lhs, rhs)"
+
+/-- The factory the model assumes for a declaration of comparison function `op`. -/
+def factoryOk (op : CmpOp) (d : Decl) (f : Factory) : Bool :=
+  match d with
+  | .same _ => if (lower op).2 then f == .other (callText op) else f == .call (opName (lower op).1)
+  | .floatInt => f == .other ("let rhs = int_to_float_cast(qp, rhs).unwrap(); " ++ callText op)
+  | .intFloat => f == .other ("let lhs = int_to_float_cast(qp, lhs).unwrap(); " ++ callText op)
+  | .fwdLeft => f == .forwardLeft
+  | .fwdRight => f == .forwardRight
+
+/-- Does the extracted entry list agree, entry by entry (signature, encoding_invariance, factory), with the model's? -/
+def entriesAgree (op : CmpOp) : List Entry → List ((Filter.BT × Filter.BT) × Decl) → Bool
+  | [], [] => true
+  | e :: es, ((l, r), d) :: ms =>
+      (match e.sigs with
+        | [(a, b)] => btOf a == some l && btOf b == some r
+        | _ => false)
+      && e.encodingInvariance == d.invariant && factoryOk op d e.factory && entriesAgree op es ms
+  | _, _ => false
+end RegTie
+
+/-- FUNCTION2_REGISTRY as extracted from the Rust source by tools/extract.py on this run (Gen/Registry.lean) is, for
+    each of the six comparison functions, exactly the table the model uses: same entries in the same order (first match
+    wins), same signatures, same encoding_invariance flags, and factories that call the operator the model's `lower`
+    assumes with the operand order it assumes (GT / GTE swapped), casting the integer side for the mixed signatures,
+    forwarding the NULL side for the NULL signatures. -/
+theorem C03_registry_translated (op : CmpOp) :
+    RegTie.entriesAgree op (LM.Gen.Registry.entries (RegTie.funcOf op)) (registry op) = true := by
+  cases op <;> decide
 
 end LM.C03
